@@ -2,6 +2,7 @@
 import re
 from itertools import permutations
 
+from .canon import ceq, eq_match, split_eq
 from .extract import AnalysisBroken
 from .facts import as_assign, estr, need_names, unwrap, walk
 from .readers import cmp_parts, strip_casts
@@ -298,9 +299,9 @@ def tet_occupied_rule(ck, fb, f):
         fs = {(s_, p_) for s_, p_, c_ in cn.facts(b)}
         if (P, True) not in fs:
             continue
-        if any(re.fullmatch(r"\(incident_cell\((.+)\) != InvalidCellHandle\)|incident_cell\((.+)\)\.is_valid\(\)", s_) and p_ is True for s_, p_ in fs) and any(s_.startswith("has_f") and p_ is True for s_, p_ in fs):
+        if any((eq_match(s_, "!=", r"incident_cell\((.+)\)", r"InvalidCellHandle", pol=p_, want="!=") or (re.fullmatch(r"incident_cell\((.+)\)\.is_valid\(\)", s_) and p_ is True)) for s_, p_ in fs) and any(s_.startswith("has_f") and p_ is True for s_, p_ in fs):
             occ = True
-        if any(re.fullmatch(r"\((v\d+)\.size\(\) != \((v\d+)\.size\(\) \* 2\w*\)\)", s_) and p_ is True for s_, p_ in fs):
+        if any(eq_match(s_, "!=", r"(v\d+)\.size\(\)", r"\((v\d+)\.size\(\) \* 2\w*\)", pol=p_, want="!=") for s_, p_ in fs):
             conn = True
     delegates = [(b, x) for b, i, x in f.nodes(("call",)) if x.get("pn", "").endswith("TopologyKernel::add_cell") and b in f.reach()]
     if not occ and not conn and delegates and all(cn.s(x["a"][1]) == P for b, x in delegates if len(x.get("a", [])) > 1):
@@ -341,9 +342,9 @@ def get_label_rule(ck, fb):
             own = False
             for c, pol, e in f.facts(b):
                 for y in walk(c):
-                    if isinstance(y, dict) and y.get("k") == "call" and y.get("pn", "").endswith("TetTopology::hfl_vl") and y.get("ta") == [str(lab), "0"] and pol is True and cn.s(c).endswith("== P2)"):
+                    if isinstance(y, dict) and y.get("k") == "call" and y.get("pn", "").endswith("TetTopology::hfl_vl") and y.get("ta") == [str(lab), "0"] and eq_match(cn.s(c), "==", r"P2", r".*", pol=pol, want="=="):
                         okf = True
-                    if isinstance(y, dict) and y.get("k") == "call" and y.get("pn", "").endswith("TetTopology::hfh") and y.get("ta") == [str(h)] and pol is True and cn.s(c).endswith("== P1)"):
+                    if isinstance(y, dict) and y.get("k") == "call" and y.get("pn", "").endswith("TetTopology::hfh") and y.get("ta") == [str(h)] and eq_match(cn.s(c), "==", r"P1", r".*", pol=pol, want="=="):
                         own = True
             if okf and own and int(m.group(1)) == h:
                 good.add(int(m.group(2)))
@@ -375,8 +376,8 @@ def sheet_rule(ck, fb, rule="C16.tables"):
     ok = False
     for b, x in pushes:
         at = {(scn.s(c), pol) for c, pol, e in cs.facts(b) if isinstance(pol, bool)}
-        ne1 = any("orientation(" in c and c.endswith("!= %s)" % D) and pol is True for c, pol in at)
-        ne2 = any("orientation(" in c and "!= " in c and "opposite_orientation(%s)" % D in c and pol is True for c, pol in at)
+        ne1 = any(eq_match(c, "!=", r".*orientation\(.*", re.escape(D), pol=pol, want="!=") for c, pol in at)
+        ne2 = any(eq_match(c, "!=", r"(?!opposite_orientation).*orientation\(.*", r"(?:\(int\))?(?:.*::)?opposite_orientation\(%s\)" % re.escape(D), pol=pol, want="!=") for c, pol in at)
         ok = ne1 and ne2
     (ck.ok if ok else lambda r, w, t: ck.violate(r, w, t, "%s:sheet" % rule))(rule, cs.where, "CellSheetCellIter collects neighbours across the four halffaces whose orientation is neither _orthDir nor its opposite")
 
@@ -610,9 +611,9 @@ def run_c16(ck, fb, fbd):
         a = as_assign(x)
         if a and re.fullmatch(r"v\d+", ccn.s(a[0])) and unwrap(strip_casts(a[1])).get("k") == "lit":
             for c, pol, e in ch.facts(b):
-                m = re.fullmatch(r"\((.*) == P0\[(\d+)\]\)", ccn.s(c)) if pol is True else None
+                m = eq_match(ccn.s(c), "==", r"P0\[(\d+)\]", r".*", pol=pol, want="==")
                 if m:
-                    offs.setdefault(ccn.s(a[0]), {})[int(m.group(2))] = unwrap(strip_casts(a[1]))["v"]
+                    offs.setdefault(ccn.s(a[0]), {})[int(m[0].group(1))] = unwrap(strip_casts(a[1]))["v"]
     ok = sorted(offs.values(), key=lambda d_: sorted(d_.items())) == sorted([{2: 0, 4: 1, 3: 2, 5: 3}, {3: 0, 4: 1, 2: 2, 5: 3}], key=lambda d_: sorted(d_.items()))
     (ck.ok if ok else lambda r, w, t: ck.violate(r, w, t, "C16.tables:offsets"))("C16.tables", ch.where, "check_halfface_ordering start offsets agree with the order tables (%s)" % offs)
     # orientation-aware accessor in the walks
